@@ -190,6 +190,7 @@ def check(run):
             "observed": small.obs_pretty(), "model": model_trace(run, small),
             "python": replay_snippet(small.expr, small.ops)}, found_input=False)
     check_seeded(run)
+    check_tuple_patterns(run)
     if cases:
         run.sample({"expr": to_source(cases[0].expr), "ops": [list(o) for o in cases[0].ops], "observed": cases[0].obs_pretty()})
     run.cov["rule"] = ("one case = one expression + one script next^k; reset; next^n; [reset; next^n;] [nextn; all; next^n]; "
@@ -625,6 +626,107 @@ def check_seeded(run):
                       "constructed PRef(q) (C04_reset_after_set_pattern no longer speaks about this code)",
             "case": {"expr": to_source(mc.expr), "ops": [list(o) for o in mc.ops]}, "observed": mc.obs_pretty(),
             "model": model_trace(run, mc)}, found_input=False)
+
+
+# ==========================================================================================================
+# Tuple stratum: a pattern stored INSIDE A TUPLE (an item of a PSequence, nested tuples) under reset().
+# Pattern.value advances such a pattern, Pattern.reset does not reach it: the known finding C04-reset-tuples
+# (findings/C04-reset-tuples.md; the model transcribes the code, Props/C04More.v C04_more_tuple_pattern_not_rewound).
+# Oracle as in the main stream (outputs after reset() = those of a newly constructed instance).  A deviation is
+# attributed to the known finding only if it DISAPPEARS when the proposed repair is installed
+# (harness/impl/c04_repaired_impl.py); any other deviation of these cases is reported as an ordinary reset violation.
+# ==========================================================================================================
+def tuple_expr(rng, gen):
+    inner = gen.gen(rng.choice([0, 1]), rng.random() < 0.7)
+    shape = rng.random()
+    n = gen.num(allow_none=False, allow_bool=False)
+    t = (inner, n) if shape < 0.5 else (n, inner) if shape < 0.7 else ((inner, n), gen.num(allow_none=False, allow_bool=False)) \
+        if shape < 0.85 else (inner, gen.gen(0, True))
+    items = gen.numlist(0, 3, allow_none=False)
+    items.insert(rng.randint(0, len(items)), t)
+    e = E("PSequence", items, rng.randint(1, 3))
+    w = rng.random()
+    if w < 0.15:
+        e = E("PRef", e)
+    elif w < 0.3:
+        e = E("PStutter", e, rng.randint(1, 2))
+    elif w < 0.4:
+        e = E("PConcatenate", [e, E("PSequence", [rng.randint(0, 5)], 1)])
+    elif w < 0.5:
+        e = E("PSequence", [e, rng.randint(0, 5)], rng.randint(1, 2))
+    return e
+
+
+def check_tuple_patterns(run):
+    rng = run.rng
+    gen = Gen(rng, run)
+    exprs = [tuple_expr(rng, gen) for _ in range(1200 if run.tier == "thorough" else 110)]
+    refs = {}
+    for e in exprs:
+        refs.setdefault(to_source(e), Case(e, [("next", 0)] * REFN, "ref"))
+    run_impl(run, list(refs.values()))
+    cases = []
+    for e in exprs:
+        r = refs[to_source(e)]
+        if r.status or not r.obs or canon_obs(r.obs[0]) != "value null":
+            run.count(); run.discard("constructor raised / timeout"); continue
+        stops = [i for i, o in enumerate(r.obs[1:]) if o == "stop"]
+        ops, k = script(rng, stops[0] if stops else None)
+        cases.append(Case(e, ops, "reset-tuple", {"k": k}))
+    run_impl(run, cases)
+    deviating = []
+    for c in cases:
+        run.count(); run.dist("tuple-pattern." + root_cls(c.expr))
+        if c.status:
+            run.discard("impl-" + c.status); continue
+        try:
+            dev = judge(c, refs[to_source(c.expr)])
+        except CannotJudge as e:
+            run.discard("oracle: " + str(e)); continue
+        run.cov["oracle_evaluations"] += len(c.obs)
+        if c.meta["k"] > 0:
+            run.nontrivial("tuple " + to_source(c.expr) + " k=%d" % c.meta["k"])
+        if dev is not None:
+            deviating.append(c)
+    # attribution: the same cases with the proposed repair installed
+    repaired = [Case(c.expr, c.ops, "repaired") for c in deviating]
+    run_impl(run, repaired, shards=4, script="c04_repaired_impl")
+    known = other = 0
+    for c, rc in sorted(zip(deviating, repaired), key=lambda p: size(p[0].expr)):
+        r = refs[to_source(c.expr)]
+        dev = judge(c, r)
+        try:
+            gone = (not rc.status) and judge(rc, r) is None
+        except CannotJudge:
+            gone = False
+        if gone:
+            known += 1
+            sig = {"kind": "reset", "via": "pattern-inside-tuple", "class": root_cls(c.expr)}
+        else:
+            other += 1
+            sig = {"kind": "reset", "class": root_cls(c.expr), "after": dev["opname"], "stratum": "tuple"}
+        if (known if gone else other) > 3:
+            continue
+        run.violation(sig, {
+            "case": {"expr": to_source(c.expr), "expr_json": to_json(c.expr), "ops": [list(o) for o in c.ops]},
+            "expected": "operation %d (%s): %s  [what a newly constructed instance produces]" % (dev["op"], dev["opname"], dev["expected"]),
+            "observed": dev["observed"], "observed_outputs": c.obs_pretty(), "fresh_instance_outputs": r.obs_pretty(),
+            "with_repair_findings_C04_reset_tuples": "rewinds" if gone else "still deviates",
+            "python": replay_snippet(c.expr, c.ops[:dev["op"] + 1])})
+    # the model says what the code does, also here
+    run_model(run, cases)
+    bad = [c for c in cases if c.verdict == "disagree"]
+    for c in cases:
+        if c.verdict == "agree":
+            run.cov["traces_validated_against_impl"] += 1
+    if bad:
+        small = shrink(run, bad[0], rounds=4)
+        run.violation({"kind": "correspondence", "class": root_cls(small.expr), "stratum": "tuple"}, {
+            "broken": "correspondence Pat/Step.v (reset_field on tuples) vs the implementation: C04_more_tuple_pattern_not_rewound no longer describes this code",
+            "case": {"expr": to_source(small.expr), "expr_json": to_json(small.expr), "ops": [list(o) for o in small.ops]},
+            "observed": small.obs_pretty(), "model": model_trace(run, small), "python": replay_snippet(small.expr, small.ops)}, found_input=False)
+    run.cov["tuple_stratum"] = {"cases": len(cases), "deviating_from_fresh_instance": len(deviating),
+                                "attributed_to_C04_reset_tuples": known, "other": other}
 
 
 def replay(run, doc):
